@@ -3,7 +3,7 @@
 # Confirms in a scratch worktree: demo passes without the patch, fails with it, existing suite passes with it.
 # Writes /verif/seeded/<name>/{patch.diff,demo,confirm.log}; prints a one-line verdict.
 NAME="$1"; PATCH="$2"; DEMO="$3"
-D=/verif/seeded/$NAME; mkdir -p "$D"
+D=/verif/seeded/$NAME; [ -e "$D/meta.json" ] && { echo "$NAME: a seed of that name is already recorded (choose a new name)"; exit 2; }; mkdir -p "$D"
 cp "$PATCH" "$D/patch.diff"; cp "$DEMO" "$D/$(basename "$DEMO")"; for x in "$(dirname "$DEMO")"/seed_demo*.c; do [ -f "$x" ] && cp "$x" "$D/"; done
 WT=/tmp/confirm-wt-$NAME; TD=${CONFIRM_TARGET:-/tmp/confirm-target}
 git -C /repo worktree remove --force "$WT" >/dev/null 2>&1
